@@ -219,3 +219,94 @@ Proof.
     rewrite parse_producer_rel; [|apply hasc_not_prefix; exact Hs|exact Hsp].
     unfold not_component, folders_of. cbn [negb]. rewrite !andb_true_r, Hs, orb_false_r. reflexivity.
 Qed.
+
+(* ================================================================ round trip *)
+Definition wf_special (p : pref) : bool :=
+  let '(st, prod, file, meth) := p in
+  match st, file with
+  | None, None => nocolon prod && nocolon meth &&
+                  match split1 "/" prod with Some (t0, _) => in_strs t0 Special | None => false end
+  | _, _ => false
+  end.
+
+(* the generator-style grammar of well-formed references: parts from which a reference is BUILT *)
+Definition wf_parts (p : pref) : bool :=
+  (wf_component p && let '(st, prod, _, _) := p in match st with Some _ => negb (var_search prod) | None => true end)
+  || wf_special p.
+
+Lemma special_not_abs t0 rest : in_strs t0 Special = true -> startswith (t0 ++ String "/" rest) "/" = false.
+Proof.
+  intros H. unfold in_strs, Special in H. cbn [existsb] in H.
+  repeat (apply orb_true_iff in H as [H|H]); try discriminate; apply String.eqb_eq in H; subst t0; reflexivity.
+Qed.
+
+Lemma roundtrip_special p idx ad sf : wf_special p = true -> parse_full (print_pref p) idx ad sf = Some p.
+Proof.
+  destruct p as [[[st prod] file] meth]. unfold wf_special, nocolon.
+  destruct st; [discriminate|]. destruct file; [discriminate|]. intros H.
+  apply andb_true_iff in H as [H H3]. apply andb_true_iff in H as [H1 H2]. apply negb_true_iff in H1, H2.
+  destruct (split1 "/" prod) as [[t0 rest]|] eqn:S; [|discriminate].
+  pose proof (split1_hasc _ _ _ _ S) as Hsl. apply split1_some in S as [E Ht0].
+  unfold print_pref, compile_ref, parse_full, parse_data, split_colon.
+  change (prod ++ ":" ++ meth) with (prod ++ String ":" meth).
+  rewrite (split1_app _ _ _ H1), H2. rewrite E at 1. rewrite (special_not_abs _ _ H3).
+  rewrite E at 1. rewrite (split1_app _ _ _ Ht0), H3.
+  rewrite E at 1. rewrite (parse_producer_special _ _ _ H3). rewrite <- E.
+  unfold not_component. rewrite Hsl. cbn [negb]. rewrite andb_true_r, orb_true_r. reflexivity.
+Qed.
+
+Theorem roundtrip p ad sf : wf_parts p = true -> parse_full (print_pref p) None ad sf = Some p.
+Proof.
+  unfold wf_parts. intros H. apply orb_true_iff in H as [H|H]; [|apply roundtrip_special; exact H].
+  destruct p as [[[st prod] file] meth]. apply andb_true_iff in H as [W V].
+  unfold print_pref. rewrite (parse_full_print _ _ _ _ _ _ _ W).
+  destruct st as [n|].
+  - apply negb_true_iff in V. rewrite V. reflexivity.
+  - destruct (in_strs prod (folders_of ad sf) || var_search prod); reflexivity.
+Qed.
+
+Corollary roundtrip_string r p ad sf :
+  wf_parts p = true -> r = print_pref p -> option_map print_pref (parse_full r None ad sf) = Some r.
+Proof. intros W ->. rewrite (roundtrip _ _ _ W). reflexivity. Qed.
+
+(* ================================================================ same target *)
+Lemma wf_component_abs st prod file meth n :
+  wf_component (st, prod, file, meth) = true -> wf_component (Some n, prod, file, meth) = true.
+Proof. unfold wf_component. intros H. apply andb_true_iff in H as [H _]. rewrite H. reflexivity. Qed.
+
+Theorem same_target prod file meth i idx' ad sf :
+  wf_component (None, prod, file, meth) = true ->
+  in_strs prod (folders_of ad sf) = false -> var_search prod = false ->
+  parse_full (print_pref (None, prod, file, meth)) (Some i) ad sf = Some (Some i, prod, file, meth) /\
+  parse_full (print_pref (Some i, prod, file, meth)) idx' ad sf = Some (Some i, prod, file, meth).
+Proof.
+  intros W F V. unfold print_pref. split.
+  - rewrite (parse_full_print _ _ _ _ _ _ _ W), F, V. reflexivity.
+  - rewrite (parse_full_print _ _ _ _ _ _ _ (wf_component_abs _ _ _ _ i W)), V. reflexivity.
+Qed.
+
+(* graph.DataReference: the absolute spelling of a relative reference owned by stage i, and back *)
+Theorem same_target_dref prod file meth i :
+  wf_component (None, prod, file, meth) = true -> prod <> "" ->
+  in_strs meth methods = true ->
+  (forall f, file = Some f -> startswith f "/" = false) ->
+  dref (print_pref (None, prod, file, meth)) (Some i)
+  = Some (print_pref (Some i, prod, file, meth), print_pref (None, prod, file, meth), Some i, prod, file, meth) /\
+  dref (print_pref (Some i, prod, file, meth)) None
+  = Some (print_pref (Some i, prod, file, meth), print_pref (None, prod, file, meth), Some i, prod, file, meth).
+Proof.
+  intros W Hne Hm Hf. pose proof (wf_component_abs _ _ _ _ i W) as W'.
+  unfold print_pref, dref. rewrite (parse_data_print _ _ _ _ W), (parse_data_print _ _ _ _ W'), Hm.
+  apply wf_component_inv in W as (Hp & _ & _ & Hs & [Hsp _]).
+  cbn [identifier_of]. rewrite parse_producer_abs, (parse_producer_rel _ _ (hasc_not_prefix _ _ Hs) Hsp).
+  assert (J : forall f, file = Some f ->
+            os_join (identifier_of (Some i) prod) f = identifier_of (Some i) prod ++ "/" ++ f /\
+            os_join prod f = prod ++ "/" ++ f).
+  { intros f E. unfold os_join. rewrite (Hf f E).
+    rewrite (hasc_ends_slash _ (identifier_noslash (Some i) prod Hs)), (hasc_ends_slash _ Hs).
+    destruct prod; [congruence|]. split; reflexivity. }
+  unfold compile_ref. destruct file as [f|].
+  - destruct (J f eq_refl) as [J1 J2]. rewrite J1, J2. cbn [identifier_of].
+    rewrite ?append_assoc. cbn. rewrite ?append_assoc. cbn. split; reflexivity.
+  - cbn [identifier_of]. rewrite ?append_assoc. cbn. rewrite ?append_assoc. cbn. split; reflexivity.
+Qed.
